@@ -35,6 +35,8 @@ import (
 	"syscall"
 	"testing"
 	"time"
+
+	"github.com/golang/protobuf/proto"
 )
 
 var e2eProps = []string{"c02", "c06", "c07", "c08", "c10", "c15", "c16", "c19"}
@@ -694,3 +696,199 @@ func tailStr(s string, n int) string {
 	}
 	return s
 }
+
+// ---- C18 on the real program: psa-dhcpd started on the TEXT form of generated configurations ----
+//
+// The other C18 cases hand a configuration structure to server.New.  Here the structure is written out in the text format of
+// etc/psa-dhcpd.conf.example, the unmodified psa-dhcpd binary is started on it (flag parsing, loadConfig, proto.UnmarshalText,
+// server.New on a real interface whose address is read through netlink) in a private network namespace, and whether it
+// comes up ("is ready") or refuses to start is compared with the specification's verdict (tag 1812).
+func TestC18Binary(t *testing.T) {
+	if os.Getenv("E2E_INNER") == "1" {
+		c18BinaryInner(t)
+		return
+	}
+	dir := filepath.Join(outDir(t), "c18bin")
+	os.RemoveAll(dir)
+	os.MkdirAll(dir, 0o755)
+	defer os.RemoveAll(dir)
+	if err := exec.Command("unshare", "-n", "ip", "link", "add", "d0", "type", "veth", "peer", "name", "d0p").Run(); err != nil {
+		c := newCaseWriter(t, "c18bin") // no network namespaces here: nothing observed, the case file stays empty
+		c.close(t, "c18bin")
+		return
+	}
+	if _, err := e2eBuild(t, dir, "psa-dhcpd"); err != nil {
+		t.Fatalf("cannot build cmd/psa-dhcpd.go of the tree under test: %v", err)
+	}
+	cmd := exec.Command("unshare", "-n", os.Args[0], "-test.run", "^TestC18Binary$", "-test.timeout", "300s")
+	cmd.Env = append(os.Environ(), "E2E_INNER=1", "E2E_DIR="+dir, "VERIF_OUT="+outDir(t))
+	if out, err := cmd.CombinedOutput(); err != nil {
+		t.Fatalf("run of the real psa-dhcpd on generated configurations failed: %v\n%s", err, out)
+	}
+}
+
+func c18BinaryInner(t *testing.T) {
+	dir := os.Getenv("E2E_DIR")
+	c := newCaseWriter(t, "c18bin")
+	defer c.close(t, "c18bin")
+	exec.Command("ip", "link", "set", "lo", "up").Run()
+	type job struct {
+		cc   *cfgCase
+		kind string
+	}
+	var jobs []job
+	for _, d := range directedCfgCases() {
+		jobs = append(jobs, job{d.cc, "directed:" + d.id})
+	}
+	r := newRand(1812)
+	for i := 0; i < scale(40, 1500); i++ {
+		cc, kind := genCfgCase(r, i%3)
+		jobs = append(jobs, job{cc, kind})
+	}
+	// the same valid configuration, damaged as text: the file cannot be understood, the server must not come up on a guess
+	vl := &violationLog{}
+	var valid *cfgCase
+	for i := 0; i < 50 && valid == nil; i++ {
+		if cc, _ := genCfgCase(newRand(int64(1900+i)), 0); len(cc.ownMAC) == 6 && cc.own != nil {
+			if o := cc.construct(); o.accepted {
+				valid = cc
+			}
+		}
+	}
+	textFaults := map[string]func(string) string{
+		"unknown-field":       func(s string) string { return s + "colour: \"blue\"\n" },
+		"unterminated-string": func(s string) string { return strings.Replace(s, "\"\n", "\n", 1) },
+		"network-twice":       func(s string) string { return s + "network: \"10.99.0.0/24\"\n" },
+		"garbage":             func(s string) string { return s + "}}}} ;; \x01\n" },
+		"cut-in-the-middle":   func(s string) string { return s[:len(s)/2] },
+		"number-for-string":   func(s string) string { return s + "router: 42\n" },
+		"empty-file":          func(s string) string { return "" },
+	}
+	const workers = 8
+	var mu sync.Mutex
+	var wg sync.WaitGroup
+	next := 0
+	for w := 0; w < workers; w++ {
+		wg.Add(1)
+		go func(w int) {
+			defer wg.Done()
+			ifn := fmt.Sprintf("d%d", w)
+			for {
+				mu.Lock()
+				if next >= len(jobs) {
+					mu.Unlock()
+					return
+				}
+				j := jobs[next]
+				idx := next
+				next++
+				mu.Unlock()
+				exec.Command("ip", "link", "del", ifn).Run()
+				mac := net.HardwareAddr(j.cc.ownMAC)
+				if len(mac) != 6 {
+					continue // the interface of the structure-level case cannot exist on this kernel
+				}
+				if out, err := exec.Command("ip", "link", "add", ifn, "address", mac.String(), "type", "veth", "peer", "name", ifn+"p").CombinedOutput(); err != nil {
+					t.Logf("ip link add: %v %s", err, out)
+					continue
+				}
+				if j.cc.own != nil {
+					if v4 := j.cc.own.To4(); v4 != nil {
+						exec.Command("ip", "addr", "add", v4.String()+"/32", "dev", ifn).Run()
+					}
+				}
+				exec.Command("ip", "link", "set", ifn, "up").Run()
+				exec.Command("ip", "link", "set", ifn+"p", "up").Run()
+				cf := filepath.Join(dir, fmt.Sprintf("conf%d", idx))
+				os.WriteFile(cf, []byte(proto.MarshalTextString(j.cc.conf)), 0o644)
+				cmd := exec.Command(filepath.Join(dir, "psa-dhcpd"), "-ifname", ifn, "-config", cf)
+				var buf lockedBuf
+				cmd.Stdout, cmd.Stderr = &buf, &buf
+				if err := cmd.Start(); err != nil {
+					continue
+				}
+				done := make(chan error, 1)
+				go func() { done <- cmd.Wait() }()
+				verdict := -1
+				for end := time.Now().Add(8 * time.Second); time.Now().Before(end) && verdict < 0; {
+					select {
+					case <-done:
+						verdict = 0
+						if strings.Contains(buf.String(), "is ready") {
+							verdict = 1 // came up, then died: judged as started (C10 looks at crashes)
+						}
+					case <-time.After(20 * time.Millisecond):
+						if strings.Contains(buf.String(), "is ready") {
+							verdict = 1
+						}
+					}
+				}
+				cmd.Process.Kill()
+				os.Remove(cf)
+				if verdict < 0 {
+					continue // neither ready nor gone within 8 s: not judged
+				}
+				saved := j.cc.probes
+				j.cc.probes = nil
+				a := append(j.cc.abstract(), L{uint64(verdict)})
+				j.cc.probes = saved
+				mu.Lock()
+				c.add(1812, j.kind, true, a, args(L{1}))
+				mu.Unlock()
+			}
+		}(w)
+	}
+	wg.Wait()
+	if valid != nil {
+		exec.Command("ip", "link", "del", "t0").Run()
+		exec.Command("ip", "link", "add", "t0", "address", net.HardwareAddr(valid.ownMAC).String(), "type", "veth", "peer", "name", "t0p").Run()
+		exec.Command("ip", "addr", "add", valid.own.To4().String()+"/32", "dev", "t0").Run()
+		exec.Command("ip", "link", "set", "t0", "up").Run()
+		good := proto.MarshalTextString(valid.conf)
+		startOn := func(text string) (started bool, log string) {
+			cf := filepath.Join(dir, "conftext")
+			os.WriteFile(cf, []byte(text), 0o644)
+			cmd := exec.Command(filepath.Join(dir, "psa-dhcpd"), "-ifname", "t0", "-config", cf)
+			var buf lockedBuf
+			cmd.Stdout, cmd.Stderr = &buf, &buf
+			if cmd.Start() != nil {
+				return false, "cannot start"
+			}
+			done := make(chan error, 1)
+			go func() { done <- cmd.Wait() }()
+			for end := time.Now().Add(8 * time.Second); time.Now().Before(end); {
+				select {
+				case <-done:
+					return strings.Contains(buf.String(), "is ready"), buf.String()
+				case <-time.After(20 * time.Millisecond):
+					if strings.Contains(buf.String(), "is ready") {
+						cmd.Process.Kill()
+						return true, buf.String()
+					}
+				}
+			}
+			cmd.Process.Kill()
+			return false, buf.String()
+		}
+		atomic.AddInt64(&vl.n, 1)
+		if ok, lg := startOn(good); !ok {
+			vl.add("c18-text", "psa-dhcpd refuses the undamaged text of a configuration server.New accepts:\n%s\n%s", good, tailStr(lg, 400))
+		}
+		for name, f := range textFaults {
+			atomic.AddInt64(&vl.n, 1)
+			if ok, _ := startOn(f(good)); ok {
+				vl.add("c18-text", "psa-dhcpd came up on a configuration file damaged by %q:\n%s", name, f(good))
+			}
+		}
+	}
+	vl.write(t, "c18text", map[string]interface{}{"distinct_nontrivial": int(atomic.LoadInt64(&vl.n)), "histogram": map[string]int{"text-fault": int(atomic.LoadInt64(&vl.n))},
+		"samples": []string{"a configuration server.New accepts, written as text and damaged in 7 ways (unknown field, unterminated string, singular field twice, garbage, cut in the middle, number for string, empty file): the real psa-dhcpd must not come up"}})
+}
+
+type lockedBuf struct {
+	mu sync.Mutex
+	b  bytes.Buffer
+}
+
+func (l *lockedBuf) Write(p []byte) (int, error) { l.mu.Lock(); defer l.mu.Unlock(); return l.b.Write(p) }
+func (l *lockedBuf) String() string               { l.mu.Lock(); defer l.mu.Unlock(); return l.b.String() }
